@@ -1,0 +1,27 @@
+//go:build verif
+
+package bondmachine
+
+import "sync/atomic"
+
+// Verification hooks (build tag "verif"): a callback invoked at the points where the
+// per-processor workers and the tick loop hand over to each other, so that a test
+// harness can perturb the goroutine schedule from a seed and log the interleaving.
+// Without the tag these calls are empty functions.
+
+var verifYieldFn atomic.Pointer[func(site string, procID int)]
+
+// SetVerifYield installs (or, with nil, removes) the callback.
+func SetVerifYield(f func(site string, procID int)) {
+	if f == nil {
+		verifYieldFn.Store(nil)
+		return
+	}
+	verifYieldFn.Store(&f)
+}
+
+func verifYield(site string, procID int) {
+	if f := verifYieldFn.Load(); f != nil {
+		(*f)(site, procID)
+	}
+}
